@@ -279,6 +279,14 @@ func init() {
 		}
 		return "ok " + toHex(buf.Bytes())
 	})
+	register("sxg.hdrint", func(args []string) string {
+		e, _ := parseExchange(args)
+		s, err := e.ComputeHeaderIntegrity()
+		if err != nil {
+			return "err"
+		}
+		return "ok " + toHex([]byte(s))
+	})
 	register("sxg.write", func(args []string) string {
 		e, _ := parseExchange(args)
 		var buf bytes.Buffer
